@@ -62,14 +62,15 @@ type KnownFinding struct {
 }
 
 type harnessResult struct {
-	Spec       HarnessSpec
-	X          *interp.Explorer
-	Wall       float64
-	Reproduced []*replayed
-	Spurious   []*replayed
-	WitnessOK  int
-	WitnessBad []string
-	WitnessN   int
+	Spec        HarnessSpec
+	X           *interp.Explorer
+	Wall        float64
+	Reproduced  []*replayed
+	Spurious    []*replayed
+	WitnessOK   int
+	WitnessBad  []string
+	WitnessN    int
+	WitnessVoid int
 }
 
 type replayed struct {
@@ -249,9 +250,16 @@ func runCheck(prop, tier string, repo, hdir string, jobs int, seed int64) int {
 		if cfg.Params == nil {
 			cfg.Params = map[string]int64{}
 		}
-		if ts.TimeoutS > 0 {
-			cfg.Deadline = time.Now().Add(time.Duration(ts.TimeoutS) * time.Second)
+		if ts.TimeoutS == 0 {
+			// default exploration deadline: a check never runs away, also on a
+			// broken tree; hitting it is reported as an exhausted budget (exit 2
+			// unless a violation was already reproduced)
+			ts.TimeoutS = 300
+			if tier == "thorough" {
+				ts.TimeoutS = 2400
+			}
 		}
+		cfg.Deadline = time.Now().Add(time.Duration(ts.TimeoutS) * time.Second)
 		h0 := time.Now()
 		fmt.Fprintf(os.Stderr, "[%s] %s %s params=%v\n", prop, hs.Pkg, hs.Fn, cfg.Params)
 		x, err := interp.RunHarness(ld, hs.Pkg, hs.Fn, cfg, jobs)
@@ -332,6 +340,14 @@ func runCheck(prop, tier string, repo, hdir string, jobs int, seed int64) int {
 					continue
 				}
 				want := strings.Join(w.Reach, ",")
+				if strings.HasPrefix(vd[1], "void:") {
+					// the model found at the rebased size does not denote a valid
+					// input at the native size (a length assumption fails there):
+					// the replay says nothing either way
+					hr.WitnessN--
+					hr.WitnessVoid++
+					continue
+				}
 				if vd[1] == "held" && vd[2] == want {
 					hr.WitnessOK++
 				} else {
@@ -370,6 +386,7 @@ func runCheck(prop, tier string, repo, hdir string, jobs int, seed int64) int {
 
 	// verdicts
 	nVio := 0
+	printed := map[string]int{}
 	var knownLines []string
 	for _, hr := range results {
 		for _, r := range hr.Reproduced {
@@ -393,9 +410,13 @@ func runCheck(prop, tier string, repo, hdir string, jobs int, seed int64) int {
 			}
 			if !matched {
 				nVio++
+				exit = 1
+				printed[hr.Spec.Fn+"|"+r.V.Msg]++
+				if printed[hr.Spec.Fn+"|"+r.V.Msg] > 3 {
+					continue // further instances of the same failed assertion are in the evidence file
+				}
 				fmt.Printf("VIOLATION property=%s replay=%s\n", prop, r.File)
 				fmt.Printf("  harness=%s msg=%q verdict=%q inputs=%s\n", hr.Spec.Fn, r.V.Msg, r.Verdict, inputSignature(r.V))
-				exit = 1
 			}
 		}
 	}
@@ -515,7 +536,7 @@ func writeEvidence(root, prop, tier string, seed int64, spec CheckSpec, results 
 			"paths": x.Paths, "paths_completed": x.PathsOK, "paths_aborted": x.Aborted, "paths_outside_bound": x.Outside,
 			"reach": x.Reach, "obligations": x.Obligations, "discharged": x.Discharged, "inconclusive": x.Inconclusive,
 			"violations_reproduced": len(hr.Reproduced), "counterexamples_not_reproduced": len(hr.Spurious),
-			"witness_replays": hr.WitnessN, "witness_agree": hr.WitnessOK, "queries": x.Queries, "solver_unknown": x.Unknowns,
+			"witness_replays": hr.WitnessN, "witness_agree": hr.WitnessOK, "witness_void_at_native_size": hr.WitnessVoid, "queries": x.Queries, "solver_unknown": x.Unknowns,
 			"solver_wall_s": round2(x.SolverWall.Seconds()), "wall_s": round2(hr.Wall), "notes": x.Notes,
 			"standalone_queries": x.StandaloneN, "cross_checked": x.CrossChecked, "cross_disagreements": x.CrossDisagree,
 			"budget_exhausted": x.BudgetHit,
@@ -537,7 +558,7 @@ func writeEvidence(root, prop, tier string, seed int64, spec CheckSpec, results 
 		"harnesses": hsum, "bounds": spec.Bounds, "outside_claim": spec.Outside, "paths_outside_bound": outside,
 		"engine_errors": engineErrs, "extra": extra, "load_wall_s": round2(ld.LoadWall.Seconds()),
 		"explanation": "states = explored paths of the real SSA (decision prefixes), transitions = symbolic decisions (branch / value / choice); each obligation is an assertion decided by z3 for all inputs on its path",
-		"exhaustive": len(engineErrs) == 0 && inc == 0,
+		"exhaustive":  len(engineErrs) == 0 && inc == 0,
 	}
 	// fallback keys so that the evidence validates for every level
 	cov["evaluations"] = max1(states)
